@@ -17,8 +17,9 @@ DEVIATIONS = {
 # name -> what fails (same wording as the proposal files /verif/proposals/<ID>/<name>.md)
 PROPOSED_KNOWN = {}   # everything found so far is either repaired in /repo or listed in known_findings.json
 
-IN_FAMS_QUICK = ["lit0", "var0", "def0", "over", "list1", "list1var", "list1def", "list2", "varin", "objlist", "relaxed"]
+IN_FAMS_QUICK = ["lit0", "var0", "def0", "over", "list1", "list1var", "list1def", "list2", "varin", "objlist", "relaxed", "req2"]
 IN_FAMS_THOROUGH = IN_FAMS_QUICK + ["list2var"]
+# (req2: two required arguments x how each is given, run as a sequence on one root)
 OUT_FAMS = ["oleaf", "olist", "otyped", "otyped2", "olist2", "oobj"]
 
 MC_CFG = """SPECIFICATION MCSpec
